@@ -208,9 +208,33 @@ let op_lsp (args : str list) : str list =
     | ErrorReply (i, c) -> Printf.sprintf "E %d %d" (int_of_n i) (int_of_z c) in
   [ S.concat ";" (List.map show (lsp_run (List.map m args))) ]
 
+(* command line: cmd(0 check,1 tokenize,2 echo) | fs "p:F<c>|p:U|p:D<e,e>|..." | tok "c:code,code;..." |
+   parse "c:code;..." | render "c:code;..." | analysis "code,code" | paths "p,p" *)
+let op_cli (args : str list) : str list =
+  match args with
+  | [cmd; fsS; tokS; parseS; renderS; anaS; pathsS] ->
+      let n s = n_of_int (int_of_string s) in
+      let items sep s = if s = "" || s = "-" then [] else S.split_on_char sep s in
+      let fsl = List.map (fun it ->
+        match S.split_on_char ':' it with
+        | [p; spec] ->
+            let nd =
+              if spec = "U" then File None
+              else if S.length spec > 0 && spec.[0] = 'F' then File (Some (n (S.sub spec 1 (S.length spec - 1))))
+              else if S.length spec > 0 && spec.[0] = 'D' then Dir (List.map n (items ',' (S.sub spec 1 (S.length spec - 1))))
+              else Missing in
+            (n p, nd)
+        | _ -> failwith "bad fs") (items '|' fsS) in
+      let kv1 s = List.map (fun it -> match S.split_on_char ':' it with [c; v] -> (n c, n v) | _ -> failwith "bad kv") (items ';' s) in
+      let kvl s = List.map (fun it -> match S.split_on_char ':' it with [c; v] -> (n c, List.map n (items ',' v)) | _ -> failwith "bad kvl") (items ';' s) in
+      let o = cli_run (n cmd) fsl (kvl tokS) (kv1 parseS) (kv1 renderS) (List.map n (items ',' anaS)) (List.map n (items ',' pathsS)) in
+      [ string_of_int (int_of_n o.exit); (if o.ok_line then "1" else "0");
+        S.concat "," (List.map (fun c -> string_of_int (int_of_n c)) o.coded) ]
+  | _ -> ["bad-args"]
+
 let ops : (str * (str list -> str list)) list ref =
   ref [ ("lex", op_lex); ("semtok", op_semtok); ("decode", op_decode); ("lit", op_lit); ("cycle", op_cycle);
-        ("lsp", op_lsp) ]
+        ("lsp", op_lsp); ("cli", op_cli) ]
 
 
 let () =
